@@ -24,13 +24,18 @@ What is proved here (model M4):
   been ended on the caller's side: it is marked aborted, so nothing will ever be delivered for it
   (`calls_of_a_removed_connection_are_ended`, from the cross-reference invariant of C02); in particular with no
   connection left every remaining entry of the call table is an aborted one (`no_connections_no_live_call`).
-Partial: "no residual state once all connections are gone" (objects, services, calls, subscriptions of a
-removed connection are gone) needs the registry cross-reference invariant; it is covered by the correspondence runs (every
-scenario ends by closing everything in one of two orders, comparing `take_statistics` with the model
-and the model's gauges with its map sizes, and requiring `Broker::run` to finish), not by a theorem.
+* for ALL histories, once no connection is left the broker holds no object and no service in any of the four registry
+  maps (`no_connections_no_objects_no_services`, from the registry cross-reference invariant of C03: every object
+  has a connected owner, every service a live object) — hence also no subscription, which lives inside a service
+  entry or a connection entry.
+Partial: channels and bus listeners of removed connections (gauges are proved, "owner is connected" is not), and
+that every affected peer is *notified* once; these are covered by the correspondence runs (every scenario ends by
+closing everything in one of two orders, comparing `take_statistics` with the model and the model's gauges with
+its map sizes, and requiring `Broker::run` to finish), not by a theorem.
 -/
 import Aldrin.Lemmas.Broker.Gauge5
 import Aldrin.Lemmas.Broker.Xref2
+import Aldrin.Lemmas.Broker.Reg
 
 namespace Aldrin.Broker
 open Generated
@@ -107,6 +112,44 @@ theorem calls_of_a_removed_connection_are_ended {b : Broker} {w : Work} (h : Rea
     · rw [ck_of_find_none hgone] at hk; simp at hk
     · rw [hi.a] at hy; simp at hy
     · simp at h3
+
+theorem AL.exists_find_of_ne_nil {K V : Type} [DecidableEq K] {m : List (K × V)} (h : m ≠ []) : ∃ k v, AL.find? k m = some v := by
+  cases m with
+  | nil => exact absurd rfl h
+  | cons p m => exact ⟨p.1, p.2, by simp [AL.find?]⟩
+
+/-- for ALL histories: once all connections are gone the broker holds no objects and no services -/
+theorem no_connections_no_objects_no_services (es : List Event) (b : Broker) (w : Work) (outs : List (List Out))
+    (h : run {} {} es = .ok (b, w, outs)) (hc : b.conns = []) :
+    b.objs = [] ∧ b.objUuids = [] ∧ b.svcs = [] ∧ b.svcUuids = [] := by
+  obtain ⟨h1, h2, h3, h4, h5, h6, h7, h8⟩ := run_reg es _ _ _ _ _ G5_init Reg.init h
+  have ho : b.objs = [] := by
+    false_or_by_contra
+    rename_i hne
+    obtain ⟨u, o, hf⟩ := AL.exists_find_of_ne_nil hne
+    rcases h3 u o hf with ⟨l, hl, _⟩ | ⟨l, hl, _⟩
+    · simp [ro, hc, AL.find?] at hl
+    · simp at hl
+  have hou : b.objUuids = [] := by
+    false_or_by_contra
+    rename_i hne
+    obtain ⟨c, u, hf⟩ := AL.exists_find_of_ne_nil hne
+    obtain ⟨o, ho', _⟩ := h1 c u hf
+    simp [obv, ho, AL.find?] at ho'
+  have hsu : b.svcUuids = [] := by
+    false_or_by_contra
+    rename_i hne
+    obtain ⟨c, v, hf⟩ := AL.exists_find_of_ne_nil hne
+    obtain ⟨oid, svu, info⟩ := v
+    rcases h7 c oid svu info hf with ⟨ha, _⟩ | ⟨l, hl, _⟩
+    · simp [ouv, hou, AL.find?] at ha
+    · simp at hl
+  refine ⟨ho, hou, ?_, hsu⟩
+  false_or_by_contra
+  rename_i hne
+  obtain ⟨k, sv, hf⟩ := AL.exists_find_of_ne_nil hne
+  obtain ⟨info, hi⟩ := h6 k.1 k.2 sv.cookie sv.objCookie (sk_find (k := (k.1, k.2)) hf)
+  simp [suv, hsu, AL.find?] at hi
 
 theorem no_connections_no_live_call {b : Broker} {w : Work} (h : Reachable b w) (hc : b.conns = []) {bs : Nat} {call : Call}
     (hg : b.calls.get? bs = some call) : call.aborted = true :=
